@@ -39,7 +39,8 @@ func footprintRuleN(p *core.Program, r *core.Report, rule string, targets [][2]s
 		if strings.HasPrefix(t[1], "file:") {
 			var l []*ssa.Function
 			for fn, si := range all {
-				if fn.Parent() == nil && inFile(p, fn, t[0], strings.TrimPrefix(t[1], "file:")) && len(si.LoopFootprints()) > 0 {
+				_ = si
+				if fn.Parent() == nil && inFile(p, fn, t[0], strings.TrimPrefix(t[1], "file:")) && len(footprintsThrough(all, fn, 0, map[*ssa.Function]bool{})) > 0 {
 					l = append(l, fn)
 				}
 			}
@@ -60,8 +61,7 @@ func footprintRuleN(p *core.Program, r *core.Report, rule string, targets [][2]s
 			continue
 		}
 		seenT[fn] = true
-		si := all[fn]
-		fps := si.LoopFootprints()
+		fps := footprintsThrough(all, fn, 0, map[*ssa.Function]bool{})
 		key := short(fn)
 		if len(fps) == 0 {
 			r.Bad(rule, key, p.Pos(fn.Pos()), "no stride-stepped loop over the flat array found: the kernel no longer walks its range coordinate by coordinate")
@@ -77,6 +77,41 @@ func footprintRuleN(p *core.Program, r *core.Report, rule string, targets [][2]s
 		}
 		r.Check(bad == "", rule, key, p.Pos(fn.Pos()), true, strings.Join(desc, "; "), bad)
 	}
+}
+
+// footprintsThrough returns the loop footprints of fn; when fn itself has no stride-stepped loop, those of its
+// function literals and of the module functions it hands a flat array to (an iterator helper that takes the loop
+// body as a callback), two levels deep.
+func footprintsThrough(all map[*ssa.Function]*eng.StrideInfo, fn *ssa.Function, depth int, seen map[*ssa.Function]bool) []eng.Footprint {
+	if fn == nil || seen[fn] || depth > 2 {
+		return nil
+	}
+	seen[fn] = true
+	if si := all[fn]; si != nil {
+		if fps := si.LoopFootprints(); len(fps) > 0 {
+			return fps
+		}
+	}
+	var out []eng.Footprint
+	for _, a := range fn.AnonFuncs {
+		out = append(out, footprintsThrough(all, a, depth, seen)...)
+	}
+	for _, c := range eng.Calls(fn) {
+		g := eng.StaticCallee(c)
+		if g == nil || !core.InModule(g) {
+			continue
+		}
+		flat := false // an iterator helper: it takes the loop body as a function value
+		for _, a := range c.Common().Args {
+			if _, ok := a.Type().Underlying().(*types.Signature); ok {
+				flat = true
+			}
+		}
+		if flat {
+			out = append(out, footprintsThrough(all, g, depth+1, seen)...)
+		}
+	}
+	return out
 }
 
 func c11(p *core.Program, r *core.Report) {
